@@ -32,9 +32,18 @@ package util
 //@   ensures r <==> (exists i int :: 0 <= i && i < len(haystack) && haystack[i] == needle)
 
 //@ extern Concat(arrs) (r)
-//@   trusted generic concatenation into a fresh slice
+//@   trusted generic concatenation into a fresh slice (four-line append loop): every element of the result is an element of one of the arguments
 //@   modifies nothing
+//@   ensures forall i int :: 0 <= i && i < len(r) ==> (exists a int, j int :: 0 <= a && a < len(arrs) && 0 <= j && j < len(arrs[a]) && r[i] == arrs[a][j])
 
 //@ extern (*FanOutChan).Chan(f) (c)
 //@   trusted accessor of the fan-out channel
 //@   modifies nothing
+
+// ContainsAll(haystack, needles): every needle's address occurs among the haystack's addresses.
+//@ func ContainsAll(haystack, needles) (r)
+//@   props C08 C09
+//@   modifies nothing
+//@   loop 0: invariant [C08,C09:address-set-holds-exactly-the-scanned-haystack-addresses] -1 <= rangeindex0 && rangeindex0 < len(haystack) && isnew(found) && (forall a string :: has(found, a) && found[a] ==> (exists i int :: 0 <= i && i <= rangeindex0 && haystack[i].Address == a))
+//@   loop 1: invariant [C08,C09:every-scanned-needle-address-is-in-the-haystack] -1 <= rangeindex1 && rangeindex1 < len(needles) && (forall a string :: has(found, a) && found[a] ==> (exists i int :: 0 <= i && i < len(haystack) && haystack[i].Address == a)) && (forall j int :: 0 <= j && j <= rangeindex1 ==> (exists i int :: 0 <= i && i < len(haystack) && haystack[i].Address == needles[j].Address))
+//@   ensures [C08,C09:contains-all-means-every-needle-address-is-a-haystack-address] r ==> (forall j int :: 0 <= j && j < len(needles) ==> (exists i int :: 0 <= i && i < len(haystack) && haystack[i].Address == needles[j].Address))
